@@ -1910,3 +1910,157 @@ impl<'u> Tr<'u> {
         Ok(name)
     }
 }
+
+// ------------------------------------------------------------------------------------ loop_step
+
+impl<'u> Tr<'u> {
+    /// One turn of the function's one `loop`, from the statement after the last `let` of the loop body that binds
+    /// `after_let` to the end of the body, as a function of the declared free variables (kind "loop_step"). The turn
+    /// must end in the statement `<receivers[0]>.<call>(args);` (the effect of a turn that goes round again): the value
+    /// is then `Ok(args)`; a `return Err(e)` on the way is `Err(e)` (the error type is the function's); `break` /
+    /// `continue` inside the fragment are errors. What precedes the fragment (how the free variables are obtained) is
+    /// not translated.
+    fn loop_step(&mut self, rq: &Request) -> R<String> {
+        let sp = Span::call_site();
+        let name = self.request_name(rq)?;
+        let (file, sig, body, self_ty) = self.find_fn(&rq.item, sp)?;
+        self.cur_file = self.u.files[file].clone();
+        struct L<'a>(Vec<&'a syn::ExprLoop>);
+        impl<'ast> syn::visit::Visit<'ast> for L<'ast> {
+            fn visit_expr_loop(&mut self, l: &'ast syn::ExprLoop) {
+                self.0.push(l);
+            }
+            fn visit_expr_closure(&mut self, _: &'ast syn::ExprClosure) {}
+            fn visit_item(&mut self, _: &'ast Item) {}
+        }
+        let mut lv = L(Vec::new());
+        syn::visit::Visit::visit_block(&mut lv, body);
+        if lv.0.len() != 1 {
+            return self.err(sig.ident.span(), format!("`{}` has {} `loop`s (exactly one is needed)", rq.item, lv.0.len()));
+        }
+        let lp = lv.0[0];
+        let stmts = &lp.body.stmts;
+        let after = match &rq.after_let {
+            Some(a) => a.clone(),
+            None => return self.err(sp, "loop_step request without `after_let`"),
+        };
+        let mut start = None;
+        for (i, s) in stmts.iter().enumerate() {
+            if let Stmt::Local(l) = s {
+                let mut ids = Vec::new();
+                pat_idents(&l.pat, &mut ids);
+                if ids.iter().any(|x| *x == after) {
+                    start = Some(i + 1);
+                }
+            }
+        }
+        let start = match start {
+            Some(i) => i,
+            None => return self.err(lp.span(), format!("no `let` of the loop body of `{}` binds `{after}`", rq.item)),
+        };
+        let (recv, callee) = match (rq.receivers.first(), &rq.call) {
+            (Some(r), Some(c)) => (r.clone(), c.clone()),
+            _ => return self.err(sp, "loop_step request without `receivers` / `call`"),
+        };
+        let frag = &stmts[start..];
+        let last_args: Vec<Expr> = match frag.last() {
+            Some(Stmt::Expr(Expr::MethodCall(m), Some(_))) if m.method == callee.as_str() && is_ident_path(&m.receiver, &recv) => {
+                m.args.iter().cloned().collect()
+            }
+            _ => {
+                return self.err(
+                    lp.span(),
+                    format!("the loop body of `{}` does not end in the statement `{recv}.{callee}(..);`", rq.item),
+                )
+            }
+        };
+        {
+            struct B(bool);
+            impl<'ast> syn::visit::Visit<'ast> for B {
+                fn visit_expr_break(&mut self, _: &'ast syn::ExprBreak) {
+                    self.0 = true;
+                }
+                fn visit_expr_continue(&mut self, _: &'ast syn::ExprContinue) {
+                    self.0 = true;
+                }
+                fn visit_expr_closure(&mut self, _: &'ast syn::ExprClosure) {}
+                fn visit_item(&mut self, _: &'ast Item) {}
+            }
+            let mut b = B(false);
+            for s in frag {
+                syn::visit::Visit::visit_stmt(&mut b, s);
+            }
+            if b.0 {
+                return self.err(lp.span(), "`break` / `continue` inside the translated part of the loop body");
+            }
+        }
+        // the error type of the function
+        let err_ty: Type = match &sig.output {
+            ReturnType::Type(_, t) => match &**t {
+                Type::Path(p) if p.path.segments.last().map(|s| s.ident == "Result").unwrap_or(false) => {
+                    let seg = p.path.segments.last().unwrap();
+                    let targs: Vec<&Type> = match &seg.arguments {
+                        syn::PathArguments::AngleBracketed(a) => {
+                            a.args.iter().filter_map(|a| if let syn::GenericArgument::Type(t) = a { Some(t) } else { None }).collect()
+                        }
+                        _ => vec![],
+                    };
+                    match targs.get(1) {
+                        Some(t) => (*t).clone(),
+                        None => return self.err(sig.span(), "loop_step: the function's `Result` has no explicit error type"),
+                    }
+                }
+                _ => return self.err(sig.span(), "loop_step: the function does not return a `Result`"),
+            },
+            ReturnType::Default => return self.err(sig.span(), "loop_step: the function does not return a `Result`"),
+        };
+        let ety = self.ty(&err_ty, self_ty.as_deref())?;
+        self.cur_file = self.u.files[file].clone();
+        let mut env = Env { self_ty: self_ty.clone(), ..Env::default() };
+        let mut binders = Vec::new();
+        self.declare_params(rq, self_ty.as_deref(), &mut env, &mut binders)?;
+        self.cur_file = self.u.files[file].clone();
+        let ret = Ty::Result(Box::new(Ty::Never), Box::new(ety));
+        env.ret = Some(ret.clone());
+        let tail_text = if last_args.len() == 1 {
+            format!("Ok({})", last_args[0].to_token_stream())
+        } else {
+            format!("Ok(({}))", last_args.iter().map(|a| a.to_token_stream().to_string()).collect::<Vec<_>>().join(", "))
+        };
+        let tail: Expr = match syn::parse_str(&tail_text) {
+            Ok(e) => e,
+            Err(e) => return self.err(lp.span(), format!("loop_step: cannot rebuild the effect `{tail_text}`: {e}")),
+        };
+        let mut synth: Vec<Stmt> = frag[..frag.len() - 1].to_vec();
+        synth.push(Stmt::Expr(tail, None));
+        let saved_opaque = std::mem::take(&mut self.opaque);
+        self.in_progress.push(format!("fn {}", rq.item));
+        let r = self.block(&synth, &env, &K::Value(Some(ret.clone())));
+        self.in_progress.pop();
+        let r = r.map(|(g, t)| {
+            self.opaque_binders(&mut binders);
+            (g, t)
+        });
+        self.opaque = saved_opaque;
+        let (g, t) = r?;
+        let text = format!("Definition {name} {} : {} :=\n  {}.", binders.join(" "), t.coq(), g.render(2));
+        let mut hashed = proc_macro2::TokenStream::new();
+        for s in frag {
+            hashed.extend(s.to_token_stream());
+        }
+        let origin = format!(
+            "{}:{} one turn of the loop of fn {} after `let {after}` {}",
+            self.u.files[file],
+            frag.first().map(|s| s.span().start().line).unwrap_or(0),
+            rq.item,
+            tok_hash(hashed)
+        );
+        self.notes.push(format!(
+            "{name} is one turn of the `loop` of {} from the statement after the last `let` that binds `{after}` to the end of the loop body, as a function of {}: `Ok(args)` when the turn ends in `{recv}.{callee}(args)` and goes round again, `Err(e)` when it leaves the function with `return Err(e)`; how `{after}` is obtained and when the loop ends are not translated",
+            rq.item,
+            rq.params.iter().map(|(a, _)| format!("`{a}`")).collect::<Vec<_>>().join(", ")
+        ));
+        self.emit(&name, text, origin);
+        Ok(name)
+    }
+}
